@@ -196,9 +196,8 @@ theorem C01_core_partial (kA kB : Kcp) (hA : Fresh kA) (hB : Fresh kB) (hsn : kB
 
 /-- **Send-side accounting.**  In every reachable state (any operations, any arguments, stream or
 message mode, `mss > 0` initially — `SetMtu` keeps it positive) the bytes `Send` has put into the
-core so far (`accB`: the whole buffer on return 0; on the stream-mode refusal −2 the part that was
-already appended to the last queued segment — see `C01_send_refusal_takes_bytes`) are exactly the
-payload bytes of `L ++ snd_queue`, in order. -/
+core so far (`accB`: the whole buffer on return 0, nothing on a refusal −1/−2 — see
+`C01_send_refusal_takes_nothing`) are exactly the payload bytes of `L ++ snd_queue`, in order. -/
 theorem C01_send_accounting (k0 : Kcp) (hf : Fresh k0) (hm : 0 < k0.mss.toNat) (ops : List Op) :
     (run { k := k0 } ops).accB =
       bytesOf ((run { k := k0 } ops).log ++ (run { k := k0 } ops).k.snd_queue.map content) :=
@@ -217,14 +216,50 @@ theorem C01_core (kA kB : Kcp) (hA : Fresh kA) (hB : Fresh kB) (hsn : kB.rcv_nxt
   rw [h2, bytesOf_append]
   exact h1.trans (List.prefix_append _ _)
 
+/-- **A refused `Send` takes nothing** (regression statement for defect F2).  Whatever the state
+and the buffer, a `Send` that does not return 0 (−1: empty buffer; −2: more than 255 segments would
+be needed) leaves the whole core state untouched; in particular the stream-mode append to the last
+queued segment has not happened.  Before the repair the −2 refusal came *after* that append
+(`Send` of more than 255·mss bytes in stream mode with a partly filled last segment kept the head of
+the buffer in the queue and then reported failure). -/
+theorem C01_send_refused_takes_nothing (k : Kcp) (b : Bytes) (h : (send k b).ret ≠ 0) :
+    (send k b).k = k := by
+  rw [send_eq] at h ⊢
+  split
+  · rfl
+  · rename_i h0
+    rw [if_neg h0] at h
+    split
+    · rfl
+    · rename_i h1
+      rw [if_neg h1] at h
+      split
+      · rfl
+      · rename_i h2
+        rw [if_neg h2] at h
+        split
+        · rename_i h3; rw [if_pos h3] at h; exact absurd rfl h
+        · rename_i h3
+          rw [if_neg h3] at h
+          split
+          · rename_i h4; rw [if_pos h4] at h; exact absurd rfl h
+          · rename_i h4; rw [if_neg h4] at h; exact absurd rfl h
+
+theorem C01_send_refusal_takes_nothing (k : Kcp) (b : Bytes) (h : (send k b).ret = -2) :
+    (send k b).k = k :=
+  C01_send_refused_takes_nothing k b (by rw [h]; decide)
+
 set_option maxRecDepth 100000 in
-/-- the defect behind the −2 clause of `sendTaken` (raw API, stream mode; unreachable through
-`UDPSession`, whose writes are ≤ mss): `Send` of more than 255·mss bytes fails with −2 *after*
-having appended the head of the buffer to the last queued segment. -/
-theorem C01_send_refusal_takes_bytes :
-    ∃ (k : Kcp) (buf : Bytes), (send k buf).ret = -2 ∧ (send k buf).panic = false ∧
-      (send k buf).k.snd_queue ≠ k.snd_queue := by
-  refine ⟨{ Kcp.new 7 with stream := 1, mss := 1, snd_queue := [{ data := [] }] }, List.replicate 257 0, ?_, ?_, ?_⟩
+/-- non-vacuity, on the input that used to witness the defect (`C01_send_refusal_takes_bytes` before
+the repair): stream mode, `mss = 1`, an empty queued segment, 257 bytes — one byte would fit into
+the last segment, the remaining 256 need more than 255 segments.  The call is refused, does not
+panic, and the queue is what it was. -/
+example :
+    (send { Kcp.new 7 with stream := 1, mss := 1, snd_queue := [{ data := [] }] } (List.replicate 257 0)).ret = -2 ∧
+    (send { Kcp.new 7 with stream := 1, mss := 1, snd_queue := [{ data := [] }] } (List.replicate 257 0)).panic = false ∧
+    (send { Kcp.new 7 with stream := 1, mss := 1, snd_queue := [{ data := [] }] } (List.replicate 257 0)).k.snd_queue
+      = [{ data := [] }] := by
+  refine ⟨?_, ?_, ?_⟩
   all_goals decide
 
 /-- **Sender's fragment countdown.**  In every reachable state (any operations, any arguments, both
